@@ -1,6 +1,274 @@
 import OnetVerif.Model.C16
-/-! Property C16 — property theorems, negation witnesses, `_partial` variants and non-vacuity
-examples only (helper lemmas that need Mathlib go to OnetVerif/Proofs/). -/
+import OnetVerif.Proofs.C16
+import OnetVerif.Proofs.C16Sim
+/-! Property C16 — service storage returns what was saved, per service, across restarts.
+
+`Db` = bucket name → key → bytes is the bbolt file; `step` is one storage call of a service's
+`Context`; `run` a history of calls by any number of services and of server restarts.  `Spec` is
+"one map, one version cell and one family of named buckets per service" (`Proofs/C16.lean`).
+A stored value is identified with its `network.Marshal` encoding (the codec round trip is an
+assumption, see meta/C16.json).  bbolt's atomicity makes every concurrent execution one of these
+sequential histories; that, and durability, are assumptions too. -/
 namespace C16
+
+/-- **c16_bucket_names_disjoint**: for two different service names neither of which is the other
+plus `"version"` or plus `"_"…`, no bucket name the one can derive (main, version, any additional
+bucket) is a bucket name the other can derive. -/
+theorem c16_bucket_names_disjoint (a b : Bytes) (h : Indep a b) (n : Bytes) : ¬ (Owns a n ∧ Owns b n) :=
+  fun ⟨ha, hb⟩ => names_disjoint h ha hb
+
+/-- without the premise the names do collide (why the premise is there) -/
+theorem c16_names_collide_without_premise :
+    Owns [97] (versionName [97]) ∧ Owns ([97] ++ sVersion) (versionName [97]) ∧
+    Owns [97] (extraName [97] [120]) ∧ Owns ([97] ++ [cUnderscore] ++ [120]) (extraName [97] [120]) :=
+  ⟨Owns.version, Owns.main, Owns.extra _, Owns.main⟩
+
+/-- the events of a history mention services of `S` only -/
+def EvIn (S : List Bytes) : Ev → Prop
+  | .call s _ => s ∈ S
+  | .restart l => ∀ t ∈ l, t ∈ S
+
+/-- **c16_refines_map**: every history of calls by services of a pairwise independent set `S` —
+save, load, raw load, version, additional buckets, in any interleaving, with server restarts (with
+any subset of `S` registered) in between — returns exactly the results the per-service
+specification returns, and the database keeps representing the specification state. -/
+theorem c16_refines_map (known : List Bytes) (S : List Bytes) (hS : PairwiseIndep S) (evs : List Ev)
+    (hev : ∀ e ∈ evs, EvIn S e) (db : Db) (hr : ∀ t ∈ S, Ready db t) (σ : Spec)
+    (ha : AgreeOn S (abs db) σ) :
+    (run known db evs).2 = (specRun known σ evs).2 ∧
+    AgreeOn S (abs (run known db evs).1) (specRun known σ evs).1 ∧
+    ∀ t ∈ S, Ready (run known db evs).1 t := by
+  induction evs generalizing db σ with
+  | nil => exact ⟨rfl, ha, hr⟩
+  | cons e evs ih =>
+    have hrest : ∀ e ∈ evs, EvIn S e := fun e he => hev e (List.mem_cons_of_mem _ he)
+    cases e with
+    | call s op =>
+      have hs : s ∈ S := hev _ List.mem_cons_self
+      obtain ⟨h1, h2, h3⟩ := sim_step known hS db σ hs hr ha op
+      obtain ⟨i1, i2, i3⟩ := ih hrest _ h3 _ h2
+      simp only [run, specRun]
+      exact ⟨by rw [h1, i1], i2, i3⟩
+    | restart l =>
+      have hl : ∀ t ∈ l, t ∈ S := hev _ List.mem_cons_self
+      simp only [run, specRun]
+      exact ih hrest _ (fun t ht => ready_startServer db l t (Or.inl (hr t ht)))
+        _ ((sim_restart hS db l hl).trans ha)
+
+/-- the value the specification holds under `(s, k)` after a history: the one of the latest
+successful `Save` by `s` under `k`, else what was there before -/
+def lastSaved (s k : Bytes) : List Ev → Option Bytes → Option Bytes
+  | [], acc => acc
+  | .call s' (.save k' raw) :: r, acc =>
+    if s' = s ∧ k' = k ∧ validKey k' then lastSaved s k r (some raw) else lastSaved s k r acc
+  | _ :: r, acc => lastSaved s k r acc
+
+private theorem specStep_main (known : List Bytes) (σ : Spec) (s' : Bytes) (op : Op) (s k : Bytes) :
+    (specStep known σ s' op).1.main s k =
+      match op with
+      | .save k' raw => if s' = s ∧ k' = k ∧ validKey k' then some raw else σ.main s k
+      | _ => σ.main s k := by
+  cases op with
+  | save k' raw =>
+    simp only [specStep]
+    by_cases hk : validKey k'
+    · by_cases e : s' = s ∧ k' = k
+      · obtain ⟨e1, e2⟩ := e; subst e1; subst e2; simp [hk]
+      · have e' : ¬ (s = s' ∧ k = k') := fun h => e ⟨h.1.symm, h.2.symm⟩
+        have e'' : ¬ (s' = s ∧ k' = k ∧ validKey k') := fun h => e ⟨h.1, h.2.1⟩
+        simp [hk, e', e]
+    · have e'' : ¬ (s' = s ∧ k' = k ∧ validKey k') := fun h => hk h.2.2
+      simp [hk]
+  | bput x k' v => simp only [specStep]; split <;> (try split) <;> rfl
+  | bget x k' => simp only [specStep]; split <;> rfl
+  | bdel x k' => simp only [specStep]; split <;> rfl
+  | _ => rfl
+
+theorem spec_main_run (known : List Bytes) (σ : Spec) (evs : List Ev) (s k : Bytes) :
+    (specRun known σ evs).1.main s k = lastSaved s k evs (σ.main s k) := by
+  induction evs generalizing σ with
+  | nil => rfl
+  | cons e evs ih =>
+    cases e with
+    | restart l => simp only [specRun, lastSaved]; exact ih σ
+    | call s' op =>
+      simp only [specRun]
+      rw [ih, specStep_main]
+      cases op <;> simp only [lastSaved]
+      next k' raw => split <;> rfl
+
+/-- **read your writes, across restarts**: after any history over `S`, a raw load of `k` by `s`
+returns the value of the latest successful `Save` of `k` by the same service `s` — whatever the
+other services saved under the same key, and however often the server was restarted — and if
+there was none, what the data directory held for `(s, k)` at the beginning. -/
+theorem c16_load_latest (known : List Bytes) (S : List Bytes) (hS : PairwiseIndep S) (evs : List Ev)
+    (hev : ∀ e ∈ evs, EvIn S e) (db : Db) (hr : ∀ t ∈ S, Ready db t) (s k : Bytes) (hs : s ∈ S) :
+    (step known (run known db evs).1 s (.loadRaw k)).2 =
+      match lastSaved s k evs (content db (mainName s) k) with
+      | none => .nothing
+      | some raw => .val raw := by
+  obtain ⟨_, h2, h3⟩ := c16_refines_map known S hS evs hev db hr (abs db) (fun _ _ => ⟨rfl, rfl, rfl⟩)
+  obtain ⟨g1, _, _⟩ := sim_step known hS _ _ hs h3 h2 (.loadRaw k)
+  rw [g1]
+  simp only [specStep, spec_main_run]
+  rfl
+
+/-- **c16_missing_is_nothing**: (one call) a key under which the service's bucket holds nothing
+loads as `(nil, nil)` — `nothing`, not an error — with `Load` and with `LoadRaw`; (histories) on a
+fresh data directory, after any history over `S` in which `s` never successfully saved `k`, the
+load of `k` by `s` yields nothing, whatever the other services saved under `k`. -/
+theorem c16_missing_is_nothing (known : List Bytes) :
+    (∀ (db : Db) (s k : Bytes), Ready db s → content db (mainName s) k = none →
+      step known db s (.load k) = (db, .nothing) ∧ step known db s (.loadRaw k) = (db, .nothing)) ∧
+    (∀ (S : List Bytes), PairwiseIndep S → ∀ (evs : List Ev), (∀ e ∈ evs, EvIn S e) →
+      ∀ (s k : Bytes), s ∈ S → lastSaved s k evs none = none →
+      (step known (run known (startServer Db.empty S) evs).1 s (.loadRaw k)).2 = .nothing) := by
+  constructor
+  · intro db s k hr hc
+    obtain ⟨b, hb⟩ := Option.isSome_iff_exists.mp hr.1
+    have hk : b k = none := by simpa [content, hb] using hc
+    constructor <;> simp [step, getFrom, hb, hk]
+  · intro S hS evs hev s k hs hl
+    have hr : ∀ t ∈ S, Ready (startServer Db.empty S) t := fun t ht => ready_startServer _ _ t (Or.inr ht)
+    rw [c16_load_latest known S hS evs hev _ hr s k hs]
+    have : content (startServer Db.empty S) (mainName s) k = none := by
+      rw [content_startServer]; rfl
+    rw [this, hl]
+
+private theorem step_frame (known : List Bytes) (db : Db) (a : Bytes) (op : Op) (n : Bytes)
+    (hn : ¬ Owns a n) : (step known db a op).1 n = db n := by
+  have h1 : n ≠ mainName a := fun e => hn (e ▸ Owns.main)
+  have h2 : n ≠ versionName a := fun e => hn (e ▸ Owns.version)
+  have h3 : ∀ x, n ≠ extraName a x := fun x e => hn (e ▸ Owns.extra x)
+  cases op with
+  | save k raw =>
+    simp only [step]
+    cases hb : db (mainName a) with
+    | none => simp [putIn_none _ _ _ _ hb]
+    | some b => rw [putIn_some _ _ _ _ b hb]; by_cases hk : validKey k <;> simp [hk, update, h1]
+  | saveVersion v =>
+    simp only [step]
+    cases hb : db (versionName a) with
+    | none => simp [putIn_none _ _ _ _ hb]
+    | some b => rw [putIn_some _ _ _ _ b hb]; simp [dbVersionKey_valid, update, h2]
+  | addBucket x => simp [step, createBucket, h3 x]
+  | bput x k v =>
+    simp only [step]
+    cases hb : db (extraName a x) with
+    | none => simp [putIn_none _ _ _ _ hb]
+    | some b => rw [putIn_some _ _ _ _ b hb]; by_cases hk : validKey k <;> simp [hk, update, h3 x]
+  | bdel x k =>
+    simp only [step]
+    cases hb : db (extraName a x) with
+    | none => simp [delIn_none _ _ _ hb]
+    | some b => rw [delIn_some _ _ _ b hb]; simp [update, h3 x]
+  | saveBad k => rfl
+  | load k => simp only [step]; split <;> rfl
+  | loadRaw k => simp only [step]; split <;> rfl
+  | loadVersion => simp only [step]; split <;> (try split) <;> rfl
+  | bget x k => simp only [step]; split <;> rfl
+
+private theorem step_local (known : List Bytes) (db₁ db₂ : Db) (b : Bytes) (op : Op)
+    (h : ∀ n, Owns b n → db₁ n = db₂ n) : (step known db₁ b op).2 = (step known db₂ b op).2 := by
+  have hm := h _ Owns.main
+  have hv := h _ Owns.version
+  have he := fun x => h _ (Owns.extra x)
+  cases op with
+  | save k raw =>
+    simp only [step]
+    cases hb : db₂ (mainName b) with
+    | none => rw [putIn_none _ _ _ _ hb, putIn_none _ _ _ _ (hm.trans hb)]
+    | some bb => rw [putIn_some _ _ _ _ bb hb, putIn_some _ _ _ _ bb (hm.trans hb)]; by_cases hk : validKey k <;> simp [hk]
+  | saveVersion v =>
+    simp only [step]
+    cases hb : db₂ (versionName b) with
+    | none => rw [putIn_none _ _ _ _ hb, putIn_none _ _ _ _ (hv.trans hb)]
+    | some bb => rw [putIn_some _ _ _ _ bb hb, putIn_some _ _ _ _ bb (hv.trans hb)]; simp [dbVersionKey_valid]
+  | addBucket x => rfl
+  | bput x k v =>
+    simp only [step]
+    cases hb : db₂ (extraName b x) with
+    | none => rw [putIn_none _ _ _ _ hb, putIn_none _ _ _ _ ((he x).trans hb)]
+    | some bb => rw [putIn_some _ _ _ _ bb hb, putIn_some _ _ _ _ bb ((he x).trans hb)]; by_cases hk : validKey k <;> simp [hk]
+  | bdel x k =>
+    simp only [step]
+    cases hb : db₂ (extraName b x) with
+    | none => rw [delIn_none _ _ _ hb, delIn_none _ _ _ ((he x).trans hb)]
+    | some bb => rw [delIn_some _ _ _ bb hb, delIn_some _ _ _ bb ((he x).trans hb)]
+  | saveBad k => rfl
+  | load k => simp only [step, getFrom, hm]; cases db₂ (mainName b) <;> simp <;> split <;> rfl
+  | loadRaw k => simp only [step, getFrom, hm]; cases db₂ (mainName b) <;> simp <;> split <;> rfl
+  | loadVersion =>
+    simp only [step, getFrom, hv]; cases db₂ (versionName b) <;> simp <;> split <;> (try split) <;> rfl
+  | bget x k => simp only [step, getFrom, he x]; cases db₂ (extraName b x) <;> simp <;> split <;> rfl
+
+/-- **c16_isolation** (frame): a call of service `a` leaves every bucket that an independent
+service `b` can name exactly as it was — keys, version cell, additional buckets — and therefore
+every call `b` makes afterwards returns what it would have returned without `a`'s call. -/
+theorem c16_isolation (known : List Bytes) (a b : Bytes) (h : Indep a b) (db : Db) (op : Op) :
+    (∀ n, Owns b n → (step known db a op).1 n = db n) ∧
+    ∀ op', (step known (step known db a op).1 b op').2 = (step known db b op').2 := by
+  have hf : ∀ n, Owns b n → (step known db a op).1 n = db n :=
+    fun n hn => step_frame known db a op n (fun ha => names_disjoint h ha hn)
+  exact ⟨hf, fun op' => step_local known _ _ b op' hf⟩
+
+/-- `int32(v)` -/
+def toInt32 (v : Int) : Int := (v + 2147483648) % 4294967296 - 2147483648
+
+theorem decode_encode_version (v : Int) : decodeVersion (encodeVersion v) = some (toInt32 v) := by
+  have hnn : 0 ≤ v % 4294967296 := Int.emod_nonneg _ (by decide)
+  have hlt : v % 4294967296 < 4294967296 := Int.emod_lt_of_pos _ (by decide)
+  have hu : ((v % 4294967296).toNat : Int) = v % 4294967296 := Int.toNat_of_nonneg hnn
+  simp only [encodeVersion, decodeVersion, wrap32, toInt32]
+  generalize (v % 4294967296).toNat = u at hu
+  have hu' : u < 4294967296 := by omega
+  have hsum : u % 256 % 256 + 256 * (u / 256 % 256 % 256) + 65536 * (u / 65536 % 256 % 256)
+      + 16777216 * (u / 16777216 % 256 % 256) = u := by omega
+  rw [hsum]
+  congr 1
+  split <;> omega
+
+/-- **c16_version_roundtrip**: the version a service saves is the version it loads, for every
+version in the `int32` range; outside that range it loads `int32(v)` (the truncation is in the
+code: the cell is four bytes). -/
+theorem c16_version_roundtrip (known : List Bytes) (db : Db) (s : Bytes) (hr : Ready db s) (v : Int) :
+    (step known (step known db s (.saveVersion v)).1 s .loadVersion).2 = .ver (toInt32 v) ∧
+    (-2147483648 ≤ v → v < 2147483648 → toInt32 v = v) := by
+  constructor
+  · obtain ⟨bv, hbv⟩ := Option.isSome_iff_exists.mp hr.2
+    simp only [step, putIn_some db _ dbVersionKey (encodeVersion v) bv hbv, dbVersionKey_valid, if_true]
+    have hg : getFrom (update db (versionName s) fun k' => if k' = dbVersionKey then some (encodeVersion v) else bv k')
+        (versionName s) dbVersionKey = some (some (encodeVersion v)) := by
+      simp [getFrom, update]
+    rw [hg]
+    have hd := decode_encode_version v
+    have hne : ∃ c r, encodeVersion v = c :: r := ⟨_, _, rfl⟩
+    obtain ⟨c, r, hcr⟩ := hne
+    rw [hcr] at hd ⊢
+    simp [hd]
+  · intro h1 h2; unfold toInt32; omega
+
+/-! ### Non-vacuity -/
+
+/-- `"c16a"`, `"c16b"`, `"c16svc"` -/
+example : PairwiseIndep [[99, 49, 54, 97], [99, 49, 54, 98], [99, 49, 54, 115, 118, 99]] := by
+  intro a ha b hb hne
+  simp only [List.mem_cons, List.not_mem_nil, or_false] at ha hb
+  rcases ha with rfl | rfl | rfl <;> rcases hb with rfl | rfl | rfl <;>
+    first
+    | exact absurd rfl hne
+    | (refine ⟨by decide, ⟨by decide, fun x h => ?_⟩, ⟨by decide, fun x h => ?_⟩⟩ <;>
+        · have := congrArg (fun l => l.take 5) h
+          revert this
+          simp [cUnderscore])
+
+example : ∀ t ∈ [[99, 49, 54, 97], [99, 49, 54, 98]],
+    Ready (startServer Db.empty [[99, 49, 54, 97], [99, 49, 54, 98]]) t :=
+  fun t ht => ready_startServer _ _ t (Or.inr ht)
+
+example : lastSaved [1] [2] [.call [1] (.save [2] [7]), .restart [[1]], .call [3] (.save [2] [8])] none = some [7] := by
+  decide
+
+example : toInt32 5 = 5 ∧ toInt32 2147483648 = -2147483648 ∧ toInt32 (4294967296 + 5) = 5 := by decide
 
 end C16
